@@ -14,7 +14,8 @@
      3 a kind flag  the parked transport dial of address a ends: 0 failure, 1 connection
                     (flag 1 = direct, 0 = relayed)
      4 c            ctx_c is cancelled
-     5 a            the address is put in back-off (left by earlier dials)
+     5 a            the address is put in back-off (left by earlier dials); a < 0: the back-off
+                    of the peer has expired (the table is cleared)
      6              the connection gater will park the next request handling of a worker loop
      7              the parked gater call returns
    observation (after synctest.Wait):
@@ -202,6 +203,68 @@ Fixpoint dup_ranking (i : Z) (xs : list cstim) : list Z :=
   | _ :: r => dup_ranking (i + 1) r
   end.
 
+(* 11: "... or with an error once every candidate address has failed or been refused": a call
+   returns an error only if every address of its ranking has been reported as failed by its
+   transport (a connection to another peer counts as a failure of that address, not as the end
+   of the call) or has been in back-off.  Bookkeeping from the stimuli only. *)
+Fixpoint find_cand (c : Z) (l : list (Z * option (list Z))) : option (option (list Z)) :=
+  match l with [] => None | (k, v) :: r => if k =? c then Some v else find_cand c r end.
+
+Fixpoint err_justified (i : Z) (failed : list Z) (cands : list (Z * option (list Z))) (tr : list (cstim * dobs)) : list Z :=
+  match tr with
+  | [] => []
+  | (x, o) :: r =>
+      let failed' := match x with
+                     | KRes a k _ => if k =? 1 then failed else a :: failed
+                     | KBackoff a => a :: failed
+                     | _ => failed end in
+      let cands' := match x with KCall c _ _ rank => (c, option_map (map fst) rank) :: cands | _ => cands end in
+      if forallb (fun e => negb (snd e =? 1) ||
+                           match find_cand (fst e) cands' with
+                           | Some (Some rk) => forallb (fun a => mem_z a failed') rk
+                           | _ => true end) (d_rets o)
+      then err_justified (i + 1) failed' cands' r
+      else [ERR_PROPERTY; i; 11]
+  end.
+
+(* 12: "every address that is neither filtered out nor in back-off is attempted": after more
+   virtual time than any ranking delay, with no worker parked and neither cap of the limiter
+   reached, every address in the ranking of a caller that still waits has been handed to a
+   transport since some caller has been waiting, or has been in back-off at some time since that
+   caller called (an address whose back-off has expired before a later caller joins must be
+   attempted for that caller).  Bookkeeping from the stimuli and observations only. *)
+Record amon := mkAmon {
+  am_wait : list (Z * (list Z * list Z));   (* caller -> (its candidates, in back-off at some time since its call) *)
+  am_started : list Z; am_bo : list Z; am_park : bool }.
+
+Fixpoint attempted (fdl ppl : Z) (m : amon) (i : Z) (tr : list (cstim * dobs)) : list Z :=
+  match tr with
+  | [] => []
+  | (x, o) :: r =>
+      let added := match x with
+                   | KBackoff a => if a <? 0 then [] else [a]
+                   | KRes a k _ => if k =? 1 then [] else [a]
+                   | _ => [] end in
+      let bo := match x with
+                | KBackoff a => if a <? 0 then [] else a :: am_bo m
+                | KRes a k _ => if k =? 1 then [] else a :: am_bo m
+                | _ => am_bo m end in
+      let w0 := map (fun e => (fst e, (fst (snd e), added ++ snd (snd e)))) (am_wait m) in
+      let w1 := match x with
+                | KCall c _ _ (Some rk) => (c, (map fst rk, bo)) :: w0
+                | _ => w0 end in
+      let w2 := filter (fun e => negb (mem_z (fst e) (map fst (d_rets o)))) w1 in
+      let waiting := negb (d_waiting o =? 0) in
+      let started := if waiting then d_starts o ++ am_started m else [] in
+      let park := match x with KPark => true | KRelease => false | _ => am_park m end in
+      if match x with
+         | KAdvance d => (2000000000 <=? d) && negb park && (d_actp o <? ppl) && (d_fdc o <? fdl) &&
+                         negb (forallb (fun e => forallb (fun a => mem_z a started || mem_z a (snd (snd e))) (fst (snd e))) w2)
+         | _ => false end
+      then [ERR_PROPERTY; i; 12]
+      else attempted fdl ppl (mkAmon w2 started bo park) (i + 1) r
+  end.
+
 Definition monitor_d_case (l : list Z) : list Z :=
   match skip_header l with
   | Some (fdl, ppl, _, r) =>
@@ -211,10 +274,18 @@ Definition monitor_d_case (l : list Z) : list Z :=
           if negb (wf_stims_b [] (map fst tr)) then [ERR_MALFORMED; 52] else
           match monitor_d fdl ppl (mkDmon [] [] [] false false) 0 tr with
           | [] =>
-              (* the case ends with every caller returned *)
-              match rev tr with
-              | (_, o) :: _ => if d_waiting o =? 0 then [] else [ERR_PROPERTY; zlen tr; 8]
-              | [] => []
+              match err_justified 0 [] [] tr with
+              | [] =>
+                  match attempted fdl ppl (mkAmon [] [] [] false) 0 tr with
+                  | [] =>
+                      (* the case ends with every caller returned *)
+                      match rev tr with
+                      | (_, o) :: _ => if d_waiting o =? 0 then [] else [ERR_PROPERTY; zlen tr; 8]
+                      | [] => []
+                      end
+                  | d => d
+                  end
+              | d => d
               end
           | d => d
           end
